@@ -160,7 +160,7 @@ def _extra_modules():
 def _family_units(envs):
     from ..tagging import legalize
     from ..terms import Module, render_module
-    out = list(space.family_units(envs=envs))
+    out = list(space.family_units(envs=envs)) + list(space.same_name_units(envs=envs))
     for tags, ei in envs:
         for lab, types in _extra_modules():
             types = {n: legalize(t, types, tags) for n, t in types.items()}
@@ -378,6 +378,9 @@ def _hist_units(tier):
     out = []
     for u in _family_units(envs):
         types = [(n, t) for n, t in u.env.items()]
+        if 'same-name' in u.label:
+            # (the environment of this family also holds virtual entries for constrained references)
+            types = [(n, t) for n, t, _ in u.tops]
         out.append(HUnit('hist', 'hist/%s' % u.label, u.spec, '', codecs=CODECS, types=types, env=u.env,
                          family=u.label.split('/')[1], nvalues=8 if thorough else 6,
                          H=5 if thorough else 3, state_cap=96 if thorough else 48))
